@@ -180,11 +180,12 @@ def oracle(ctx):
         shape = rng.choice([(3,), (2, 2), (4, 1), (1,)])
         cplx = rng.random() < 0.3
         dt = torch.complex128 if cplx else DT
-        A = 0.25 * torch.randn(shape, dtype=dt)
-        b = torch.randn(shape, dtype=dt)
-        strength = rng.choice([0.1, 0.3])
-        # contractive fixed-point map  y = b + A * tanh-like(y)  (polynomial to stay holomorphic for complex)
-        fp = lambda y, A, b: b + A * (y - strength * y * y * y / (1 + 0 * y)) * 0.5
+        A = 0.2 * torch.randn(shape, dtype=dt).clamp(-2, 2) if not cplx else 0.15 * torch.randn(shape, dtype=dt)
+        b = 0.3 * torch.randn(shape, dtype=dt)
+        strength = rng.choice([0.05, 0.1])
+        # contractive fixed-point map (Lipschitz constant < 0.5 on the ball that contains the iterates);
+        # polynomial so that it is holomorphic for complex unknowns
+        fp = lambda y, A, b: b + A * (0.5 * y - strength * y * y * y)
         g = lambda y, A, b: y - fp(y, A, b)
         y0 = torch.zeros(shape, dtype=dt)
         f_tol = rng.choice([1e-6, 1e-9])
